@@ -297,6 +297,9 @@ EndDeltas == IF MaxList = 1 THEN {0, 1} ELSE {1}
 OfferedFees == {NoCoin} \cup {SomeCoin(d, n) : d \in FeeDenomsOffered, n \in CoinAmts}
 
 Rcpts == Users \cup Spellings
+\* (a .cfg file cannot hold negative numbers) the wide-ids configuration also creates batches
+\* with first-millennium dates: four-digit zero-padded years in the denom
+StartTicksX == StartTicks \cup (IF Genesis = "wide" THEN {-9840, -4850} ELSE {})
 Issuance == {[to |-> u, t |-> t, r |-> r] : u \in Rcpts, t \in Amts, r \in Amts}
 NoOriginSet == {NoOrigin}
 
@@ -315,7 +318,7 @@ Msgs(s, T) ==
          {[type |-> T, issuer |-> a, project_id |-> p, issuance |-> is, meta |-> "m0",
            start |-> st0, end |-> st0 + dl, open |-> o, origin |-> NoOrigin]
             : a \in Users, p \in ProjectIds(s), is \in Seqs12(Issuance),
-              st0 \in StartTicks, dl \in EndDeltas, o \in BOOLEAN}
+              st0 \in StartTicksX, dl \in EndDeltas, o \in BOOLEAN}
     [] T = "MintBatchCredits" ->
          {[type |-> T, issuer |-> a, batch_denom |-> d, issuance |-> is,
            origin |-> [set |-> TRUE, id |-> x, src |-> src, contract |-> ""]]
